@@ -455,3 +455,57 @@ Proof.
     destruct H as [(S & -> & _)|(S & L & U0 & _)]; destruct H' as [(S0 & -> & _)|(S0 & L' & U0' & _)]; try lra.
   - apply (down_mono phi (dzmax_of phi) Hd 101 0 (phi 0) z z' y o y' o'); try assumption; try reflexivity; lra.
 Qed.
+
+(* ---------------------------------------------------------------- the complete rawToTransformValue *)
+Lemma Some_inj_Q (a b : Q) : Some a = Some b -> a = b.
+Proof. congruence. Qed.
+Definition clamp_y (A : anam) (y : Q) : Q :=
+  if an_flagBound A then clamp_hi (getVmax (an_ay A)) (clamp_lo (getVmin (an_ay A)) y) else y.
+(* none of the four bound tests fires: the value is inverted by scan + bisection *)
+Definition in_core (A : anam) (z : Q) : bool :=
+  negb (an_flagBound A) ||
+  negb (outside_below (an_az A) z || outside_above (an_az A) z || outside_below (an_pz A) z || outside_above (an_pz A) z).
+
+Lemma r2t_outside_below A z :
+  an_flagBound A = true -> outside_below (an_az A) z = true -> r2t A z = Some (getVmin (an_ay A)).
+Proof. intros F O. unfold r2t. rewrite F, O. reflexivity. Qed.
+Lemma r2t_outside_above A z :
+  an_flagBound A = true -> outside_below (an_az A) z = false -> outside_above (an_az A) z = true ->
+  r2t A z = Some (getVmax (an_ay A)).
+Proof. intros F O O'. unfold r2t. rewrite F, O, O'. reflexivity. Qed.
+
+Lemma r2t_in_core A z : in_core A z = true ->
+  r2t A z = match r2t_core (t2r A) z with Some (y, _) => Some (clamp_y A y) | None => None end.
+Proof.
+  unfold in_core, r2t, clamp_y. destruct (an_flagBound A); cbn [negb orb]; [|reflexivity].
+  intro H. apply negb_true_iff in H. apply orb_false_iff in H. destruct H as [H H4].
+  apply orb_false_iff in H. destruct H as [H H3]. apply orb_false_iff in H. destruct H as [H1 H2].
+  rewrite H1, H2, H3, H4. reflexivity.
+Qed.
+
+Lemma clamp_mono lo hi y y' : y <= y' -> clamp_hi hi (clamp_lo lo y) <= clamp_hi hi (clamp_lo lo y').
+Proof.
+  intro H. unfold clamp_hi, clamp_lo.
+  destruct (qltb_spec y lo); destruct (qltb_spec y' lo);
+    repeat match goal with |- context [qltb ?a ?b] => destruct (qltb_spec a b) end; lra.
+Qed.
+
+Theorem r2t_total A z : r2t A z <> None.
+Proof.
+  unfold r2t. pose proof (r2t_core_total (t2r A) z) as T.
+  destruct (r2t_core (t2r A) z) as [[y o]|]; [|contradiction].
+  destruct (an_flagBound A); [|discriminate].
+  repeat match goal with |- context [if ?b then _ else _] => destruct b end; discriminate.
+Qed.
+
+Theorem r2t_mono A z z' y y' :
+  in_core A z = true -> in_core A z' = true -> z <= z' ->
+  r2t A z = Some y -> r2t A z' = Some y' -> y <= y'.
+Proof.
+  intros C C' Hz H H'. rewrite (r2t_in_core A z C) in H. rewrite (r2t_in_core A z' C') in H'.
+  destruct (r2t_core (t2r A) z) as [[y0 o]|] eqn:E; [|discriminate].
+  destruct (r2t_core (t2r A) z') as [[y0' o']|] eqn:E'; [|discriminate].
+  pose proof (r2t_core_mono (t2r A) z z' y0 o y0' o' Hz E E') as M.
+  apply Some_inj_Q in H. apply Some_inj_Q in H'. subst y y'.
+  unfold clamp_y. destruct (an_flagBound A); [apply clamp_mono; exact M|exact M].
+Qed.
